@@ -188,6 +188,25 @@ impl Pipe {
     net::drain();
   }
 
+  /// The remote endpoints of `flow` are unmatched and matched again while their participants live on (what
+  /// `Reader::remove_writer_proxy` / `Writer::reader_lost` followed by rediscovery do): crypto registrations are
+  /// dropped and made anew, key tokens exchanged again, R gets a fresh reader.
+  pub fn rematch(&mut self, flow: usize, reliable: bool) -> Result<(), String> {
+    let e = |x: crate::security::SecurityError| format!("{x:?}");
+    {
+      let f = &self.flows[flow];
+      let sender = if f.by_other { self.o.as_ref().unwrap() } else { &self.s };
+      self.r.h.get_plugins().unregister_remote_writer(&f.r, &f.w).map_err(e)?;
+      sender.h.get_plugins().unregister_remote_reader(&f.w, &f.r).map_err(e)?;
+      self.r.h.get_plugins().unregister_remote_reader(&f.rw, &f.sr).map_err(e)?;
+      sender.h.get_plugins().unregister_remote_writer(&f.sr, &f.rw).map_err(e)?;
+      match_pair(sender, f.w, &f.w_attrs, &self.r, f.r, &f.r_attrs)?;
+      match_pair(&self.r, f.rw, &f.w_attrs, sender, f.sr, &f.r_attrs)?;
+    }
+    self.reset_reader(flow, reliable);
+    Ok(())
+  }
+
   /// A sample of `len` body bytes written through S's real `Writer`; the datagrams it sends to R.
   pub fn send_real(&mut self, flow: usize, len: usize, dispose: bool) -> (i64, Vec<Vec<u8>>) {
     net::drain();
